@@ -462,42 +462,21 @@ func monitors(o *hlib.Out, idx int, s *scenario, res *gocql.VerifC10Result, scop
 		return
 	}
 	nts := res.StrategyKind == 2
-	ringDCs := map[string]bool{}
 	distinct := 0
 	for _, h := range s.Hosts {
-		ringDCs[h.DC] = true
 		if len(h.Tokens) > 0 {
 			distinct++
 		}
 	}
 	// never a panic
 	if res.Panic != "" {
-		fid := ""
-		if nts && panicCode(res.Panic) == 4 {
-			pos, absent := 0, false
-			for dc, rf := range res.NtsDCs {
-				if rf > 0 {
-					pos++
-					if !ringDCs[dc] {
-						absent = true
-					}
-				}
-			}
-			if pos == len(ringDCs) && absent {
-				fid = "nts-unknown-dc-panic"
-			}
-		}
-		violate(o, idx, "no-panic", fid, "replicaMap panicked: "+res.Panic, s.json())
+		violate(o, idx, "no-panic", "", "replicaMap panicked: "+res.Panic, s.json())
 		return
 	}
 	// never a node twice, never more than the distinct nodes
 	for _, e := range res.Map {
 		if h, dup := dupHost(e.Hosts); dup {
-			fid := ""
-			if nts && len(s.Hosts[h].Tokens) >= 2 {
-				fid = "nts-duplicate-replica"
-			}
-			violate(o, idx, "no-duplicate", fid, fmt.Sprintf("token %q: replicas %v contain host %d twice", e.Token, e.Hosts, h), s.json())
+			violate(o, idx, "no-duplicate", "", fmt.Sprintf("token %q: replicas %v contain host %d twice", e.Token, e.Hosts, h), s.json())
 			return
 		}
 		if len(e.Hosts) > distinct {
@@ -1055,7 +1034,8 @@ func exhaustive(o *hlib.Out, maxHosts, maxTok int, emitEvery int) int {
 	return count
 }
 
-// the recorded witnesses of the two known findings (Refuted.v) and the examples of Spec.v / Props.v, replayed on the real code
+// the inputs of the two repaired defects (nts-duplicate-replica, nts-unknown-dc-panic: Refuted.v keeps the pre-fix behaviour) and the
+// examples of Spec.v / Props.v, replayed on the real code
 func witnesses(o *hlib.Out) {
 	mk := func(hosts []hostD, class string, kv ...interface{}) *scenario {
 		s := &scenario{Part: 0, PName: partNames[0][0], Hosts: hosts, Class: class, RunMap: true}
